@@ -197,7 +197,7 @@ REGISTRY["C06"] = dict(REGISTRY["C01"], **{
                ["version", "prevhash", "merkle", "timestamp", "index+1", "index-far", "index-1", "nonce", "primary", "nextconsensus",
                 "prevstateroot", "sig-flip", "sig-missing", "sig-reorder", "sig-otherkeys", "verifscript", "tx-dup", "tx-alter",
                 "tx-expired", "tx-onchain", "tx-underfunded", "tx-drop-keep-merkle", "tx-reorder-keep-merkle", "truncated", "trailing",
-                "nonminimal-count", "tx-named-by-onchain-conflicts"]] + ["conflict_attack_delivered", "conflict_attack_victim_pooled",
+                "nonminimal-count", "tx-named-by-onchain-conflicts", "tx-signed-by-blocked-account"]] + ["blocked_attack_delivered", "conflict_attack_delivered", "conflict_attack_victim_pooled",
                "conflict_attack_named_by_cosigner", "conflict_attack_two_namers", "forged_header_batch", "valid_header_of_rejected_block_recorded", "genuine_header_recorded_before_body",
                "equivocating_header_recorded", "lenient_decoding_accepted_identical_block", "corruption_keeps_genuine_header"],
 })
@@ -288,7 +288,7 @@ REGISTRY["C07"] = dict(REGISTRY["C19"], **{
     "rule": _NET_RULE + "C07: 4-16 client transactions, one third of them with exactly one defect; MaxTransactionsPerBlock drawn 0(default)-3. Non-trivial/distinct as for C19.",
     "probes": ["client_tx", "tx_pooled", "tx_not_pooled", "fee_threshold_checked/signature", "fee_threshold_checked/multisig", "block_packed_from_pool", "packed_txs",
                "tx_request_answered", "blocks_committed"] + ["defective_tx/" + d for d in ["expired", "valid-until-too-far", "already-on-chain", "bad-witness",
-               "fee-one-short", "highpriority-without-committee", "notvalidbefore-in-future", "sender-cannot-pay"]],
+               "fee-one-short", "highpriority-without-committee", "notvalidbefore-in-future", "sender-cannot-pay", "cosigned-by-blocked-account"]],
 })
 REGISTRY["C17"] = dict(REGISTRY["C19"], **{
     "level_text": ("only the clause of C17 that has a wire path in it: inside the network simulation 3-18% of all messages are corrupted (bit flip, truncation, trailing "
